@@ -139,6 +139,7 @@ type funcVerifier struct {
 	entryBase   *heapBase
 	lockSnap    *State
 	lockSnapBy  map[string]*State // latest acquisition snapshot per (type.mutex@owner)
+	lockReadBy  map[string]bool   // whether that acquisition was an RLock
 	lockHavocs  []lockHavoc
 	iterSnaps   []*State // loop-head states of the enclosing loops (for iteration clauses)
 	wildHavoc   bool // the whole heap was forgotten outside a loop head (un-contracted callee, undeclared lock)
